@@ -575,31 +575,31 @@ func liveCharge(g map[string]uint64, fn string, args [][]byte) uint64 {
 		total += uint64(len(a))
 	}
 	switch fn {
-	case vmcommon.BuiltInFunctionSaveKeyValue:
+	case refBuiltInFunctionSaveKeyValue:
 		return g["SaveKeyValue"] + total*g["PersistPerByte"] + uint64(len(args[1]))*g["StorePerByte"]
-	case vmcommon.BuiltInFunctionESDTNFTCreate:
+	case refBuiltInFunctionESDTNFTCreate:
 		return g["ESDTNFTCreate"] + total*g["StorePerByte"]
-	case vmcommon.BuiltInFunctionESDTNFTAddURI:
+	case refBuiltInFunctionESDTNFTAddURI:
 		return g["ESDTNFTAddURI"] + uint64(len(args[2]))*g["StorePerByte"]
-	case vmcommon.BuiltInFunctionESDTNFTUpdateAttributes:
+	case refBuiltInFunctionESDTNFTUpdateAttributes:
 		return g["ESDTNFTUpdateAttributes"] + uint64(len(args[2]))*g["StorePerByte"]
-	case vmcommon.BuiltInFunctionESDTLocalMint:
+	case refBuiltInFunctionESDTLocalMint:
 		return g["ESDTLocalMint"]
-	case vmcommon.BuiltInFunctionESDTLocalBurn:
+	case refBuiltInFunctionESDTLocalBurn:
 		return g["ESDTLocalBurn"]
-	case vmcommon.BuiltInFunctionESDTBurn:
+	case refBuiltInFunctionESDTBurn:
 		return g["ESDTBurn"]
-	case vmcommon.BuiltInFunctionESDTNFTAddQuantity:
+	case refBuiltInFunctionESDTNFTAddQuantity:
 		return g["ESDTNFTAddQuantity"]
-	case vmcommon.BuiltInFunctionESDTNFTBurn:
+	case refBuiltInFunctionESDTNFTBurn:
 		return g["ESDTNFTBurn"]
-	case vmcommon.BuiltInFunctionESDTTransfer:
+	case refBuiltInFunctionESDTTransfer:
 		return g["ESDTTransfer"]
-	case vmcommon.BuiltInFunctionSetUserName:
+	case refBuiltInFunctionSetUserName:
 		return g["SaveUserName"]
-	case vmcommon.BuiltInFunctionChangeOwnerAddress:
+	case refBuiltInFunctionChangeOwnerAddress:
 		return g["ChangeOwnerAddress"]
-	case vmcommon.BuiltInFunctionClaimDeveloperRewards:
+	case refBuiltInFunctionClaimDeveloperRewards:
 		return g["ClaimDeveloperRewards"]
 	}
 	return 0
@@ -621,9 +621,9 @@ func c19LiveRun(lc *liveCase, concurrent bool, baseline [][]bool) ([][]bool, str
 	gasA, gasB := DistinctGas(1), DistinctGas(1)
 	// B differs from A in every entry and is not a multiple of it
 	i := uint64(0)
-	for _, sect := range []string{vmcommon.BaseOperationCostString, vmcommon.BuiltInCostString} {
+	for _, sect := range []string{refBaseOperationCostSection, refBuiltInCostSection} {
 		names := baseCostNames
-		if sect == vmcommon.BuiltInCostString {
+		if sect == refBuiltInCostSection {
 			names = builtInCostNames
 		}
 		for _, n := range names {
@@ -657,10 +657,10 @@ func c19LiveRun(lc *liveCase, concurrent bool, baseline [][]bool) ([][]bool, str
 		sca.Owner = cp(p.a)
 		sca.Reward = new(big.Int).Lsh(big.NewInt(1), 80)
 		setup := []*Call{
-			{Fn: vmcommon.BuiltInFunctionESDTTransfer, Caller: sys, Rcv: p.a, Args: hbs(p.ftok, new(big.Int).Lsh(big.NewInt(1), 60).Bytes())},
-			{Fn: vmcommon.BuiltInFunctionSetESDTRole, Caller: sys, Rcv: p.a, Args: hbs(p.ftok, []byte(vmcommon.ESDTRoleLocalMint), []byte(vmcommon.ESDTRoleLocalBurn))},
-			{Fn: vmcommon.BuiltInFunctionSetESDTRole, Caller: sys, Rcv: p.a, Args: hbs(p.ntok, []byte(vmcommon.ESDTRoleNFTCreate), []byte(vmcommon.ESDTRoleNFTAddQuantity), []byte(vmcommon.ESDTRoleNFTBurn), []byte(vmcommon.ESDTRoleNFTAddURI), []byte(vmcommon.ESDTRoleNFTUpdateAttributes))},
-			{Fn: vmcommon.BuiltInFunctionESDTNFTCreate, Caller: p.a, Rcv: p.a, Gas: ampleGas, Args: hbs(p.ntok, new(big.Int).Lsh(big.NewInt(1), 40).Bytes(), []byte("n"), []byte{}, []byte("h"), []byte{}, []byte("u"))},
+			{Fn: refBuiltInFunctionESDTTransfer, Caller: sys, Rcv: p.a, Args: hbs(p.ftok, new(big.Int).Lsh(big.NewInt(1), 60).Bytes())},
+			{Fn: refBuiltInFunctionSetESDTRole, Caller: sys, Rcv: p.a, Args: hbs(p.ftok, []byte(refESDTRoleLocalMint), []byte(refESDTRoleLocalBurn))},
+			{Fn: refBuiltInFunctionSetESDTRole, Caller: sys, Rcv: p.a, Args: hbs(p.ntok, []byte(refESDTRoleNFTCreate), []byte(refESDTRoleNFTAddQuantity), []byte(refESDTRoleNFTBurn), []byte(refESDTRoleNFTAddURI), []byte(refESDTRoleNFTUpdateAttributes))},
+			{Fn: refBuiltInFunctionESDTNFTCreate, Caller: p.a, Rcv: p.a, Gas: ampleGas, Args: hbs(p.ntok, new(big.Int).Lsh(big.NewInt(1), 40).Bytes(), []byte("n"), []byte{}, []byte("h"), []byte{}, []byte("u"))},
 		}
 		for _, c := range setup {
 			if err := must(c); err != nil {
@@ -692,49 +692,49 @@ func c19LiveRun(lc *liveCase, concurrent bool, baseline [][]bool) ([][]bool, str
 			var c *Call
 			switch op.Kind {
 			case "skv":
-				c = &Call{Fn: vmcommon.BuiltInFunctionSaveKeyValue, Caller: p.a, Rcv: p.a, Args: hbs([]byte(fmt.Sprintf("key-%d-%d", t, j)), append([]byte("v"), blob...))}
+				c = &Call{Fn: refBuiltInFunctionSaveKeyValue, Caller: p.a, Rcv: p.a, Args: hbs([]byte(fmt.Sprintf("key-%d-%d", t, j)), append([]byte("v"), blob...))}
 			case "create":
-				c = &Call{Fn: vmcommon.BuiltInFunctionESDTNFTCreate, Caller: p.a, Rcv: p.a, Args: hbs(p.ntok, []byte{1}, blob, []byte{}, []byte("h"), blob, []byte("u"))}
+				c = &Call{Fn: refBuiltInFunctionESDTNFTCreate, Caller: p.a, Rcv: p.a, Args: hbs(p.ntok, []byte{1}, blob, []byte{}, []byte("h"), blob, []byte("u"))}
 			case "adduri":
-				c = &Call{Fn: vmcommon.BuiltInFunctionESDTNFTAddURI, Caller: p.a, Rcv: p.a, Args: hbs(p.ntok, []byte{1}, append([]byte("u"), blob...))}
+				c = &Call{Fn: refBuiltInFunctionESDTNFTAddURI, Caller: p.a, Rcv: p.a, Args: hbs(p.ntok, []byte{1}, append([]byte("u"), blob...))}
 			case "update":
-				c = &Call{Fn: vmcommon.BuiltInFunctionESDTNFTUpdateAttributes, Caller: p.a, Rcv: p.a, Args: hbs(p.ntok, []byte{1}, append([]byte("a"), blob...))}
+				c = &Call{Fn: refBuiltInFunctionESDTNFTUpdateAttributes, Caller: p.a, Rcv: p.a, Args: hbs(p.ntok, []byte{1}, append([]byte("a"), blob...))}
 			case "mint":
-				c = &Call{Fn: vmcommon.BuiltInFunctionESDTLocalMint, Caller: p.a, Rcv: p.a, Args: hbs(p.ftok, []byte{1})}
+				c = &Call{Fn: refBuiltInFunctionESDTLocalMint, Caller: p.a, Rcv: p.a, Args: hbs(p.ftok, []byte{1})}
 			case "localburn":
-				c = &Call{Fn: vmcommon.BuiltInFunctionESDTLocalBurn, Caller: p.a, Rcv: p.a, Args: hbs(p.ftok, []byte{1})}
+				c = &Call{Fn: refBuiltInFunctionESDTLocalBurn, Caller: p.a, Rcv: p.a, Args: hbs(p.ftok, []byte{1})}
 			case "burn":
-				c = &Call{Fn: vmcommon.BuiltInFunctionESDTBurn, Caller: p.a, Rcv: sys, Args: hbs(p.ftok, []byte{1})}
+				c = &Call{Fn: refBuiltInFunctionESDTBurn, Caller: p.a, Rcv: sys, Args: hbs(p.ftok, []byte{1})}
 			case "addq":
-				c = &Call{Fn: vmcommon.BuiltInFunctionESDTNFTAddQuantity, Caller: p.a, Rcv: p.a, Args: hbs(p.ntok, []byte{1}, []byte{2})}
+				c = &Call{Fn: refBuiltInFunctionESDTNFTAddQuantity, Caller: p.a, Rcv: p.a, Args: hbs(p.ntok, []byte{1}, []byte{2})}
 			case "nftburn":
-				c = &Call{Fn: vmcommon.BuiltInFunctionESDTNFTBurn, Caller: p.a, Rcv: p.a, Args: hbs(p.ntok, []byte{1}, []byte{1})}
+				c = &Call{Fn: refBuiltInFunctionESDTNFTBurn, Caller: p.a, Rcv: p.a, Args: hbs(p.ntok, []byte{1}, []byte{1})}
 			case "nfttransfer":
-				c = &Call{Fn: vmcommon.BuiltInFunctionESDTNFTTransfer, Caller: p.a, Rcv: p.a, Args: hbs(p.ntok, []byte{1}, []byte{1}, p.b)}
+				c = &Call{Fn: refBuiltInFunctionESDTNFTTransfer, Caller: p.a, Rcv: p.a, Args: hbs(p.ntok, []byte{1}, []byte{1}, p.b)}
 			case "multi":
-				c = &Call{Fn: vmcommon.BuiltInFunctionMultiESDTNFTTransfer, Caller: p.a, Rcv: p.a, Args: hbs(p.b, []byte{2}, p.ftok, []byte{0}, []byte{1}, p.ntok, []byte{1}, []byte{1})}
+				c = &Call{Fn: refBuiltInFunctionMultiESDTNFTTransfer, Caller: p.a, Rcv: p.a, Args: hbs(p.b, []byte{2}, p.ftok, []byte{0}, []byte{1}, p.ntok, []byte{1}, []byte{1})}
 			case "freeze":
-				c = &Call{Fn: vmcommon.BuiltInFunctionESDTFreeze, Caller: sys, Rcv: p.b, Args: hbs(p.ntok)}
+				c = &Call{Fn: refBuiltInFunctionESDTFreeze, Caller: sys, Rcv: p.b, Args: hbs(p.ntok)}
 			case "unfreeze":
-				c = &Call{Fn: vmcommon.BuiltInFunctionESDTUnFreeze, Caller: sys, Rcv: p.b, Args: hbs(p.ntok)}
+				c = &Call{Fn: refBuiltInFunctionESDTUnFreeze, Caller: sys, Rcv: p.b, Args: hbs(p.ntok)}
 			case "pause":
-				c = &Call{Fn: vmcommon.BuiltInFunctionESDTPause, Caller: sys, Rcv: refSystemAccount, Args: hbs([]byte(fmt.Sprintf("XX%02d-cccccc", t)))}
+				c = &Call{Fn: refBuiltInFunctionESDTPause, Caller: sys, Rcv: refSystemAccount, Args: hbs([]byte(fmt.Sprintf("XX%02d-cccccc", t)))}
 			case "unpause":
-				c = &Call{Fn: vmcommon.BuiltInFunctionESDTUnPause, Caller: sys, Rcv: refSystemAccount, Args: hbs([]byte(fmt.Sprintf("XX%02d-cccccc", t)))}
+				c = &Call{Fn: refBuiltInFunctionESDTUnPause, Caller: sys, Rcv: refSystemAccount, Args: hbs([]byte(fmt.Sprintf("XX%02d-cccccc", t)))}
 			case "setrole":
-				c = &Call{Fn: vmcommon.BuiltInFunctionSetESDTRole, Caller: sys, Rcv: p.b, Args: hbs(p.ftok, []byte(vmcommon.ESDTRoleLocalBurn))}
+				c = &Call{Fn: refBuiltInFunctionSetESDTRole, Caller: sys, Rcv: p.b, Args: hbs(p.ftok, []byte(refESDTRoleLocalBurn))}
 			case "unsetrole":
-				c = &Call{Fn: vmcommon.BuiltInFunctionUnSetESDTRole, Caller: sys, Rcv: p.b, Args: hbs(p.ftok, []byte(vmcommon.ESDTRoleLocalBurn))}
+				c = &Call{Fn: refBuiltInFunctionUnSetESDTRole, Caller: sys, Rcv: p.b, Args: hbs(p.ftok, []byte(refESDTRoleLocalBurn))}
 			case "setusername":
-				c = &Call{Fn: vmcommon.BuiltInFunctionSetUserName, Caller: dns, Rcv: p.b, Args: hbs(append([]byte("name"), blob...))}
+				c = &Call{Fn: refBuiltInFunctionSetUserName, Caller: dns, Rcv: p.b, Args: hbs(append([]byte("name"), blob...))}
 			case "changeowner":
-				c = &Call{Fn: vmcommon.BuiltInFunctionChangeOwnerAddress, Caller: p.a, Rcv: p.sc, Args: hbs(p.a)}
+				c = &Call{Fn: refBuiltInFunctionChangeOwnerAddress, Caller: p.a, Rcv: p.sc, Args: hbs(p.a)}
 			case "claim":
-				c = &Call{Fn: vmcommon.BuiltInFunctionClaimDeveloperRewards, Caller: p.a, Rcv: p.sc}
+				c = &Call{Fn: refBuiltInFunctionClaimDeveloperRewards, Caller: p.a, Rcv: p.sc}
 			case "wipe":
-				c = &Call{Fn: vmcommon.BuiltInFunctionESDTWipe, Caller: sys, Rcv: p.b, Args: hbs(p.ntok)}
+				c = &Call{Fn: refBuiltInFunctionESDTWipe, Caller: sys, Rcv: p.b, Args: hbs(p.ntok)}
 			default:
-				c = &Call{Fn: vmcommon.BuiltInFunctionESDTTransfer, Caller: p.a, Rcv: p.b, Args: hbs(p.ftok, []byte{1})}
+				c = &Call{Fn: refBuiltInFunctionESDTTransfer, Caller: p.a, Rcv: p.b, Args: hbs(p.ftok, []byte{1})}
 			}
 			c.Gas = ampleGas
 			o := obs{fn: c.Fn, a: liveCharge(fa, c.Fn, args2bytes(c.Args)), b: liveCharge(fb, c.Fn, args2bytes(c.Args))}
